@@ -17,7 +17,7 @@ REPLAY_DIR = os.path.join(EVIDENCE_DIR, 'replays')
 KNOWN = os.path.join(ROOT, 'known_findings.json')
 JOBS = int(os.environ.get('VF_JOBS', '16'))
 EXIT_OK, EXIT_VIOLATION, EXIT_HARNESS = 0, 1, 3
-GRACE_S = 240
+GRACE_S = int(os.environ.get('VF_GRACE', '240'))
 # wall budget per tier (seconds): slices not started before it is used up are reported as skipped (the bound in evidence shrinks)
 DEFAULT_BUDGET = {'quick': None, 'thorough': 900}
 
